@@ -158,25 +158,25 @@ func (e *EncryptedISO) Read(b []byte) (int, error) {
 	readStart := e.offset
 
 	read, err := e.privateFile.Read(b)
-	if err != nil || read == 0 {
+	if read == 0 {
 		return read, err
 	}
 
 	e.offset += sizeBytes(read)
 	e.clearRegionsData(readStart, b[:read])
 	e.decryptData(readStart, b[:read], false)
-	return read, nil
+	return read, err
 }
 
 func (e *EncryptedISO) ReadAt(b []byte, off int64) (int, error) {
 	read, err := e.privateFile.ReadAt(b, off)
-	if err != nil || read == 0 {
+	if read == 0 {
 		return read, err
 	}
 
 	e.clearRegionsData(sizeBytes(off), b[:read])
 	e.decryptData(sizeBytes(off), b[:read], true)
-	return read, nil
+	return read, err
 }
 
 func (e *EncryptedISO) Seek(offset int64, whence int) (int64, error) {
